@@ -33,6 +33,9 @@ inductive Err where
   | recursion         -- fuel exhausted (RecursionError in the code)
   | decode            -- UnicodeDecodeError
   | os                -- OSError and subclasses
+  | attribute         -- AttributeError
+  | typeError         -- TypeError
+  | keyExpired        -- securesystemslib KeyExpirationError
   | other             -- any other exception class
   deriving DecidableEq, Repr, Inhabited
 
@@ -43,7 +46,8 @@ def Err.name : Err → String
   | .rule => "RuleVerificationError" | .badReturn => "BadReturnValueError"
   | .timeout => "TimeoutExpired" | .keyError => "KeyError" | .indexError => "IndexError"
   | .prefix => "PrefixError" | .value => "ValueError" | .recursion => "RecursionError"
-  | .decode => "UnicodeDecodeError" | .os => "OSError" | .other => "Exception"
+  | .decode => "UnicodeDecodeError" | .os => "OSError" | .attribute => "AttributeError"
+  | .typeError => "TypeError" | .keyExpired => "KeyExpirationError" | .other => "Exception"
 
 deriving instance DecidableEq for Except
 
